@@ -107,7 +107,7 @@ def run(chk):
     scen = []
     pairs = [(a, b) for a in range(11) for b in range(11)]
     reps = (1 if quick else 6) * (5 if broken else 1)
-    for _ in range(reps):
+    for rep_ in range(reps):
         for (src, dst) in pairs:
             for shape in ('2x2', 'NxN'):
                 for inplace in (False, True):
@@ -125,7 +125,8 @@ def run(chk):
                     from props.vspec import validate_type
                     if not validate_type(src, r_, c_):
                         continue
-                    nf = rng.choice([0, 1, 2, 3, 4])
+                    # the first pass always has data to compare; empty objects are a class of the later passes and of one in five here
+                    nf = rng.choice([1, 2, 3, 4]) if rep_ == 0 and rng.random() < 0.8 else rng.choice([0, 1, 2, 3, 4])
                     perF = rng.random() < 0.5
                     scen.append(dict(src=src, dst=dst, r=r_, c=c_, nf=nf, perF=perF, inplace=inplace))
     # phase 1: objects and oracle calls
